@@ -1228,13 +1228,13 @@ func cmdNondet(args []string) error {
 	}
 	b.WriteString("]\n\n")
 	b.WriteString("/-- package directories scanned completely -/\n")
-	b.WriteString("def scannedDirs : List String := [" )
+	b.WriteString("def scannedDirs : List String := [")
 	for i, s := range scannedDirs {
 		fmt.Fprintf(&b, "%s%s", leanStr(s), comma(i, len(scannedDirs)))
 	}
 	b.WriteString("]\n\n")
 	b.WriteString("/-- the packages of this module that the root packages (-roots) transitively import, roots included -/\n")
-	b.WriteString("def closure : List String := [" )
+	b.WriteString("def closure : List String := [")
 	for i, s := range closure {
 		fmt.Fprintf(&b, "%s%s", leanStr(s), comma(i, len(closure)))
 	}
